@@ -42,13 +42,15 @@ def is_unsigned_ty(ty):
 
 
 class Fact(object):
-    __slots__ = ("p", "origin", "text", "req")
+    __slots__ = ("p", "origin", "text", "req", "neq")
 
-    def __init__(self, p, origin, text="", req=None):
+    def __init__(self, p, origin, text="", req=None, neq=None):
         self.p = p
         self.origin = origin     # 'range' | 'cond' | 'type' | 'pre'
         self.text = text
         self.req = req           # polynomial that must be >= 0 for this fact to hold (None: unconditional)
+        self.neq = neq           # a pending 'q != 0' (integers): p is then the trivial 0 >= 0; once the other facts give q >= 0 or
+                                 # q <= 0 the prover reads it as q >= 1 / q <= -1 ('if (x == 0) continue; if (x < 0 || x > n) ..')
 
     def __repr__(self):
         return "%r>=0[%s]" % (self.p, self.origin)
@@ -367,6 +369,10 @@ class BWalk(omp.Region):
                     out.append(Fact(a - b - 1, "cond", t))
                 elif self.prover.prove(b - a, known, 2) is not None:
                     out.append(Fact(b - a - 1, "cond", t))
+                else:
+                    out.append(Fact(a - a, "cond", t, neq=a - b))      # sharpened later, when a sign of a - b is known
+            elif op == "!=" and self.prover is not None:
+                out.append(Fact(a - a, "cond", t, neq=a - b))
             return out
         # truthiness of an integer: x false  <=>  x == 0
         if not pol and is_int_ty(strip_ty(c)):
@@ -1081,6 +1087,18 @@ class Prover(object):
 
     def prove(self, p, facts, depth=5):
         """p >= 0 ?  -> list of facts used (possibly empty) or None"""
+        if any(getattr(f, "neq", None) is not None for f in facts):
+            rest = [f for f in facts if getattr(f, "neq", None) is None]
+            extra = []
+            for f in facts:
+                q = getattr(f, "neq", None)
+                if q is None:
+                    continue
+                if self.prove(q, rest, 2) is not None:
+                    extra.append(Fact(q - 1, "cond", f.text))
+                elif self.prove(-q, rest, 2) is not None:
+                    extra.append(Fact(-q - 1, "cond", f.text))
+            facts = rest + extra
         if any(f.req is not None for f in facts):
             plain = [f for f in facts if f.req is None]
             facts = plain + [f for f in facts if f.req is not None and self.prove(f.req, plain, 2) is not None]
